@@ -25,6 +25,13 @@ Qed.
 Lemma gross_nonneg op ask x : dom op -> dom ask -> 0 <= x -> 0 <= gross op ask x.
 Proof. unfold dom, gross. intros. apply Z.div_pos; nia. Qed.
 
+Definition dom0 (z : Z) : Prop := 0 <= z < P128.
+Lemma gross_le_ask0 op ask x : dom op -> dom0 ask -> 0 <= x -> 0 <= gross op ask x <= ask.
+Proof.
+  unfold dom, dom0, gross. intros Ho Ha Hx. split. apply Z.div_pos; nia.
+  apply Z.div_le_upper_bound; nia.
+Qed.
+
 (* closed form *)
 Definition swap_closed (op ask x : Z) (f : fees) : outcome swapc :=
   let G := gross op ask x in
@@ -37,8 +44,8 @@ Definition swap_closed (op ask x : Z) (f : fees) : outcome swapc :=
 Lemma big1 a b : 0 <= a < P128 -> 0 <= b < P128 -> 0 <= a * b < P256.
 Proof. rewrite P256_eq. intros. nia. Qed.
 
-Lemma compute_swap_cp_closed op ask x f :
-  dom op -> dom ask -> 0 <= x < P128 -> fees_ok f ->
+Lemma compute_swap_cp_closed0 op ask x f :
+  dom op -> dom0 ask -> 0 <= x < P128 -> fees_ok f ->
   compute_swap_cp op ask x f = swap_closed op ask x f.
 Proof.
   intros Ho Ha Hx Hf. pose proof (fees_ok_sum f Hf) as (Hp & Hs & Hb & Hsum).
@@ -46,11 +53,10 @@ Proof.
   pose proof P64_sq as H64. pose proof P256_eq as H256.
   assert (HP128 : 0 < P128) by reflexivity.
   assert (HPD : P128 * DEC < P256) by reflexivity.
-  unfold dom in *.
+  pose proof (gross_le_ask0 op ask x Ho Ha (proj1 Hx)) as [HG0 HG].
+  unfold dom, dom0 in *.
   pose proof (big1 x ask ltac:(lia) ltac:(lia)) as Hxa.
   assert (HaD : ask * DEC < P256) by nia.
-  pose proof (gross_lt_ask op ask x Ho Ha (proj1 Hx)) as HG.
-  pose proof (gross_nonneg op ask x Ho Ha (proj1 Hx)) as HG0.
   unfold compute_swap_cp, swap_closed.
   (* num *)
   unfold pmul. rewrite (fits_intro P256 (ask * x)) by (apply big1; lia). cbn [bind].
@@ -106,6 +112,11 @@ Proof.
   rewrite (fits_intro P128 (G * f_burn f / DEC)) by lia. cbn [bind].
   reflexivity.
 Qed.
+
+Lemma compute_swap_cp_closed op ask x f :
+  dom op -> dom ask -> 0 <= x < P128 -> fees_ok f ->
+  compute_swap_cp op ask x f = swap_closed op ask x f.
+Proof. intros Ho Ha. apply compute_swap_cp_closed0; auto. unfold dom, dom0 in *. lia. Qed.
 
 (* ---- C02 facts --------------------------------------------------------- *)
 Section Facts.
